@@ -46,6 +46,9 @@ type c09Doc struct {
 func c09XMLValid(b []byte) bool {
 	d := xml.NewDecoder(bytes.NewReader(b))
 	d.Strict = true
+	// any declared encoding is read as bytes: only well-formedness is judged (without this, encoding/xml rejects
+	// `encoding='ISO-8859-1'` but overlooks the same declaration written with spaces around `=`)
+	d.CharsetReader = func(_ string, r io.Reader) (io.Reader, error) { return r, nil }
 	depth := 0
 	for {
 		t, err := d.Token()
@@ -303,7 +306,9 @@ func init() {
 					report("output is not well-formed XML (encoding/xml) although the input is", "")
 				}
 			case "text/css":
-				if c09CSSValid(d.data) && !c09CSSValid(o) {
+				// only for unmutated style sheets: on byte-mutated garbage (stray quotes pairing up across rules) the crude
+				// balance checker's verdict on the input means nothing
+				if !mutated && c09CSSValid(d.data) && !c09CSSValid(o) {
 					report("output has unbalanced blocks/strings/comments although the input is balanced", "")
 				}
 			case "text/html":
